@@ -48,7 +48,7 @@ pub fn grid() -> Vec<(Cfg, bool)> {
 }
 
 /// `Cfg::build` + the privilege mode
-fn build(cfg: &Cfg, unprivileged: bool) -> Result<trippy_core::Tracer, Error> {
+pub(crate) fn build(cfg: &Cfg, unprivileged: bool) -> Result<trippy_core::Tracer, Error> {
     Builder::new(cfg.target)
         .privilege_mode(if unprivileged { PrivilegeMode::Unprivileged } else { PrivilegeMode::Privileged })
         .protocol(cfg.proto)
